@@ -189,6 +189,9 @@ func c16(env *Env, rep *Report) {
 			}
 		}
 	}
+	if gwBin() != "" {
+		bindCaps(rep, "C16", env)
+	}
 	rep.add("distinct", int64(distinct))
 	rep.add("states", int64(distinct))
 }
